@@ -34,21 +34,22 @@ TECHNIQUE = ("Lean 4 proof of non-interference and race freedom under read-only 
 LEVEL_TEXT = ("Machine-checked: for every machine, thread count, program and schedule, if steps change no observable shared "
               "state every thread's output equals its solo/sequential output, and if steps write only synchronised shared "
               "locations no trace has a race (Props/C07.lean, induction on the schedule). The hypothesis is discharged by "
-              "`decide` for the write channels (`mutable`, const_cast, non-const calls via pointer members, statics) that the "
-              "translator finds in the classes reachable from StylesheetRoot/XalanSourceTreeDocument/XercesDocumentWrapper in "
-              "the current tree, under a hand-kept classification; partial (see level_note). Tied to the code by a TSan build "
-              "of the working tree running N threads over cold shared stylesheets/sources for generated stylesheets covering "
-              "keys, xsl:number, document(), format-number, sort, id(); negative controls (non-thread-safe Xerces wrappers) "
-              "must race where the model says.")
+              "`decide` for the write channels (`mutable`, const_cast, non-const calls via pointer members, statics, lazily "
+              "headed containers) that the translator finds in the classes reachable from StylesheetRoot/XalanSourceTreeDocument/"
+              "XercesDocumentWrapper in the current tree, under a hand-kept classification (translate/c07_allow.tsv); partial "
+              "(see level_note). Tied to the code by a TSan build of the working tree running N threads over cold shared "
+              "stylesheets/sources (native, XercesDOMWrapperParsedSource, parseSource(..,useXercesDOM)) for generated stylesheets "
+              "covering keys, xsl:number, document(), format-number, sort, id(), declared and undeclared; negative controls "
+              "(XercesParserLiaison with thread safety off) must race where the model says.")
 LEVEL_NOTE = ("Trusted: Lean kernel; axioms propext/Classical.choice/Quot.sound only; translate/c07_share.py (regex inventory, "
-              "not a completeness proof: writes through pointer members are tracked one call deep, Xerces/ICU internals not at "
-              "all); the classification of each channel in XalanModel/C07/Guards.lean (C++ facts read off the code, validated "
-              "by the TSan runs, bounded by generator coverage); the C++ memory model, the compiler and ThreadSanitizer itself "
-              "are modelled-not-verified; libxerces-c/ICU are not instrumented (races wholly inside them are invisible). "
-              "Theorems over the table are `_partial` and assume that the list heads of shared containers exist before sharing "
-              "(XalanList::getListHead() const allocates lazily): `lazy_listhead_counterexample` proves the statement false "
-              "without it; that was a genuine defect (id() on a shared source without IDs), repaired by fix: d0cd23c and "
-              "replayed on the real code by the corpus on every run.")
+              "cross-checked class by class against the clang AST in the thorough tier, but not a completeness proof: writes "
+              "through pointer members are tracked one call deep, Xerces/ICU internals not at all); the classification of each "
+              "channel in translate/c07_allow.tsv (C++ facts read off the code, validated by the TSan runs, bounded by generator "
+              "coverage); the C++ memory model, the compiler and ThreadSanitizer itself are modelled-not-verified; libxerces-c/ICU "
+              "are not instrumented (races wholly inside them are invisible). Theorems over the table are `_partial` for these "
+              "reasons. Two genuine defects were found and repaired in /repo (fix: d0cd23c lazy list heads of a shared source "
+              "tree document; fix: 8b7d92c non-thread-safe Xerces parsed source); `lazy_listhead_interference_counterexample` "
+              "keeps the first one as a proved counterexample of the pre-fix code; both are replayed on every run.")
 DESIGN_REF = "DESIGN.md section 5, C07; design/C07.md"
 
 P = "XalanModel.Props.C07."
